@@ -344,6 +344,10 @@ class ModelCacheMixin:
             r[0] for r in ModelCacheMixin.batch_eval(self, [e], n, extra_constraints=extra_constraints, exact=exact)
         )
 
+    def _optimum_is_cached(self, e, m):
+        # an expression may only be marked min/max-exhausted if a cached model witnesses the optimum
+        return self.variables.issuperset(e.variables) and m in self._get_solutions(e, allow_unconstrained=False)
+
     def min(self, e, extra_constraints=(), signed=False, exact=None):
         cached = []
         exhausted = self._min_signed_exhausted if signed else self._min_exhausted
@@ -362,7 +366,7 @@ class ModelCacheMixin:
             return min(cached, key=signed_key if signed else lambda v: v)
 
         m = super().min(e, extra_constraints=extra_constraints, signed=signed, exact=exact)
-        if len(extra_constraints) == 0 and self.variables.issuperset(e.variables):
+        if len(extra_constraints) == 0 and self._optimum_is_cached(e, m):
             exhausted[e.hash()] = e
         return m
 
@@ -380,7 +384,7 @@ class ModelCacheMixin:
             return max(cached, key=signed_key if signed else lambda v: v)
 
         m = super().max(e, extra_constraints=extra_constraints, signed=signed, exact=exact)
-        if len(extra_constraints) == 0 and self.variables.issuperset(e.variables):
+        if len(extra_constraints) == 0 and self._optimum_is_cached(e, m):
             exhausted[e.hash()] = e
         return m
 
